@@ -234,6 +234,14 @@ func (c *Ctx) c02HeaderLen() {
 		r.Undecided("R3", "role:avp-header-length", "-", "no AVP method returning the header length 8/12 found")
 		return
 	}
+	// the method may forward to a function of the flags octet (avpHeaderLen(a.Flags)): judged there
+	if rvs := flow.ReturnValues(hl, 0); len(rvs) == 1 {
+		if call, ok := rvs[0].(*ssa.Call); ok {
+			if g := flow.StaticCallee(call); g != nil && g.Blocks != nil && c.P.IsLibrary(g) && len(call.Call.Args) == 1 && isFlagsLoad(call.Call.Args[0]) {
+				hl = g
+			}
+		}
+	}
 	good := true
 	flow.Instrs(hl, func(in ssa.Instruction) {
 		ret, ok := in.(*ssa.Return)
@@ -266,8 +274,22 @@ func (c *Ctx) c02NewAVP() {
 		if tn, fld, _, ok := flow.FieldOf(st.Addr); !ok || tn != "AVP" || fld != "Flags" {
 			return
 		}
-		bo, ok := st.Val.(*ssa.BinOp)
-		if !ok || bo.Op != token.OR {
+		// the value stored: flags|0x80 computed right here under the test, or computed under the test earlier and
+		// merged with the flags as given (if vendor > 0 { flags |= Vbit }; …{Flags: flags})
+		var bo *ssa.BinOp
+		var at ssa.Instruction = st
+		if b, ok := st.Val.(*ssa.BinOp); ok {
+			bo = b
+		} else if ph, ok := st.Val.(*ssa.Phi); ok {
+			for _, e := range ph.Edges {
+				if b, ok := e.(*ssa.BinOp); ok && b.Op == token.OR {
+					bo, at = b, b
+				} else if _, isP := flow.Peel(e).(*ssa.Parameter); !isP {
+					return
+				}
+			}
+		}
+		if bo == nil || bo.Op != token.OR {
 			return
 		}
 		if k, ok := flow.ConstInt(bo.Y); !ok || k != 0x80 {
@@ -275,7 +297,7 @@ func (c *Ctx) c02NewAVP() {
 		}
 		// on the vendor > 0 edge (possibly together with "bit not yet set"), and under nothing else
 		onVendor, extra := false, false
-		for _, g := range flow.Guards(st) {
+		for _, g := range flow.Guards(at) {
 			rl, ok := condRel(g.If.Cond, g.Taken)
 			if ok && (rl.op == token.GTR || rl.op == token.NEQ) && isZeroConst(rl.b) {
 				if p, isP := flow.Peel(rl.a).(*ssa.Parameter); isP && p.Name() == f.Params[2].Name() {
